@@ -290,14 +290,25 @@ def run(ctx):
 
     # ---- gate 4b: the real homomorphic evaluator at toy parameters (reading of eval_level + bit numbering)
     if binp is not None and drv is not None:
-        n_real = 6 if quick else 64
+        n_real = 120 if quick else 3000
         reqs = []
         r2 = rng.fork()
         for op in OPS:
             for (a, b) in sample_pairs(r2, 144 + n_real)[144:]:
                 reqs.append((op, a, b))
-            a, b = r2.choice(BOUNDARY), r2.choice(BOUNDARY)
-            reqs.append((op, a, b))
+            for _ in range(8):
+                reqs.append((op, r2.choice(BOUNDARY), r2.choice(BOUNDARY)))
+            if op in ("sll", "srl", "sra"):
+                # every shift amount (incl. the ignored high bits of b) on sign / pattern classes of a
+                for a in (0x80000000, 0xFFFF0000, 0x7FFFFFFF, 0x40000000, r2.next() & M32 | 0x80000000, r2.next() & M32):
+                    for b in range(64):
+                        reqs.append((op, a, b))
+            if op in ("add", "sub", "slt", "sltu"):
+                # long carry / borrow chains and sign combinations
+                for k in range(32):
+                    reqs.append((op, (1 << k) - 1, 1))
+                    reqs.append((op, M32, (1 << k)))
+                    reqs.append((op, 1 << k, (1 << k) - 1 if k else 0))
         lines = [f"{k} {op} {a} {b}" for k, (op, a, b) in enumerate(reqs)]
         rc, outl, err = ctx.run_lines(binp, ["bddeval"], lines, timeout=3000)
         if rc != 0:
